@@ -132,6 +132,12 @@ pub(crate) fn tokenize(
 
                     next_fileid += tokresult.filenames.len();
 
+                    // files that were included by the included file are not visible in the current file:
+                    // from here, all their content comes from the directive that is being processed
+                    for nested_filename in tokresult.filenames.iter_mut().skip(1) {
+                        nested_filename.include_root = Some(incname.to_owned());
+                    }
+
                     // append the tokens from the included file(s)
                     tokens.append(&mut tokresult.tokens);
 
